@@ -412,9 +412,13 @@ class FileResponse(Response, FileResponseMixin):
     async def handle_all(
         self, send_header_only: bool, file_size: int, scope: Scope, send: Send
     ) -> None:
-        self.headers["content-type"] = str(self.content_type)
-        self.headers["content-length"] = str(file_size)
-        await send_http_start(send, 200, self.list_headers(as_bytes=True))
+        headers = {
+            "content-type": str(self.content_type),
+            "content-length": str(file_size),
+        }
+        await send_http_start(
+            send, 200, self.list_headers(as_bytes=True, replace=headers)
+        )
         if send_header_only:
             return await send_http_body(send)
 
@@ -434,10 +438,14 @@ class FileResponse(Response, FileResponseMixin):
         start: int,
         end: int,
     ) -> None:
-        self.headers["content-range"] = f"bytes {start}-{end-1}/{file_size}"
-        self.headers["content-type"] = str(self.content_type)
-        self.headers["content-length"] = str(end - start)
-        await send_http_start(send, 206, self.list_headers(as_bytes=True))
+        headers = {
+            "content-range": f"bytes {start}-{end-1}/{file_size}",
+            "content-type": str(self.content_type),
+            "content-length": str(end - start),
+        }
+        await send_http_start(
+            send, 206, self.list_headers(as_bytes=True, replace=headers)
+        )
         if send_header_only:
             return await send_http_body(send)
 
@@ -457,12 +465,16 @@ class FileResponse(Response, FileResponseMixin):
         ranges: Sequence[Tuple[int, int]],
     ) -> None:
         boundary = "".join(random_choices("abcdefghijklmnopqrstuvwxyz0123456789", k=13))
-        self.headers["content-type"] = f"multipart/byteranges; boundary={boundary}"
         content_length, generate_headers = self.generate_multipart(
             ranges, boundary, file_size, self.content_type
         )
-        self.headers["content-length"] = str(content_length)
-        await send_http_start(send, 206, self.list_headers(as_bytes=True))
+        headers = {
+            "content-type": f"multipart/byteranges; boundary={boundary}",
+            "content-length": str(content_length),
+        }
+        await send_http_start(
+            send, 206, self.list_headers(as_bytes=True, replace=headers)
+        )
         if send_header_only:
             return await send_http_body(send)
         sendfile = self.create_send_or_zerocopy(scope, send)
@@ -481,9 +493,6 @@ class FileResponse(Response, FileResponseMixin):
 
         stat_result = self.stat_result
         file_size = stat_result.st_size
-        # a response object may serve several requests: forget the last one
-        self.headers.pop("content-range", None)
-
         http_range: Optional[str] = None
         http_if_range: Optional[str] = None
         for key, value in scope["headers"]:
